@@ -124,6 +124,17 @@ static void stage_random(Run &R) {
     });
 }
 
+// (e) length sweep: one structural event before / after / inside runs of 1..2100 (thorough: ..8300) octets
+static void stage_long(Run &R) {
+    size_t maxn = R.a.thorough ? 8300 : 2100; uint64_t total = 0;
+    for (size_t n = 1; n <= maxn; n++) {
+        if ((int) (n % R.a.nworkers) != R.a.worker) continue;
+        for (const Bytes &b : gen::long_local_shapes(n)) { total++; for (int m = 0; m < 3; m++) if (!run_one(R, m, b)) return; }
+        if (n % 97 == 0) R.sample("long", "29 shapes around a run of " + std::to_string(n) + " octets", 3);
+    }
+    R.space("C02 length sweep: 29 shapes (quote / dot / escape / fold / blank / high byte before, after or inside a run) x run lengths 1.." + std::to_string(maxn) + " x 3 modes", total * R.a.nworkers * 3);
+}
+
 // corpus: the repository's own local-part lines
 static void stage_corpus(Run &R) {
     for (const char *fn : {"localpart-ascii.txt", "localpart-utf8.txt", "localpart-utf8-rfc20.txt"}) {
@@ -153,6 +164,7 @@ int main(int argc, char **argv) {
     else if (R.a.stage == "bounded") stage_bounded(R);
     else if (R.a.stage == "random") stage_random(R);
     else if (R.a.stage == "corpus") stage_corpus(R);
+    else if (R.a.stage == "long") stage_long(R);
     else { fprintf(stderr, "unknown stage %s\n", R.a.stage.c_str()); return 2; }
     return finish(R);
 }
